@@ -251,7 +251,8 @@ def _area_dumps(record: Any) -> tuple:
                         "protoclusters": [p.get_protocluster_number() for p in c.protoclusters],
                         "protocluster_keys": [_proto_key(p) for p in c.protoclusters],
                         "products": list(c.products), "product_string": c.get_product_string(),
-                        "detection_rules": list(c.detection_rules)} for c in cands],
+                        "detection_rules": list(c.detection_rules),
+                        "cdses": [cds.get_name() for cds in c.cds_children]} for c in cands],
         "regions": [{"number": r.get_region_number(), "location": str(r.location), "products": list(r.products),
                      "product_string": r.get_product_string(),
                      "candidates": [c.get_candidate_cluster_number() for c in r.candidate_clusters],
@@ -262,7 +263,8 @@ def _area_dumps(record: Any) -> tuple:
                      "detection_rules": list(r.detection_rules),
                      "categories": sorted(r.product_categories),
                      "cdses": [cds.get_name() for cds in r.cds_children]} for r in regions],
-        "subregions": [{"number": s.get_subregion_number(), "key": _sub_key(s)} for s in record.get_subregions()],
+        "subregions": [{"number": s.get_subregion_number(), "key": _sub_key(s),
+                        "cdses": [cds.get_name() for cds in s.cds_children]} for s in record.get_subregions()],
     }
     return sets, repeats, exact
 
@@ -367,6 +369,13 @@ def _area_classes(record: Any) -> list:
         members = region.get_unique_protoclusters()
         if any((one < two) == (two < one) for i, one in enumerate(members) for two in members[i + 1:]):
             label = "unordered_in_crossing_region" if region.crosses_origin() else "unordered_in_plain_region"
+            if label not in classes:
+                classes.append(label)
+    for area in list(protos) + list(record.get_regions()):
+        spans = [(int(cds.location.start), int(cds.location.end)) for cds in area.cds_children]
+        if len(set(spans)) < len(spans):
+            label = "equal_coordinate_cdses_in_crossing_area" if area.crosses_origin() else \
+                "equal_coordinate_cdses_in_plain_area"
             if label not in classes:
                 classes.append(label)
     classes.append(f"regions_{min(len(record.get_regions()), 3)}")
